@@ -6,7 +6,7 @@ import json, os, subprocess, sys
 env = dict(os.environ, GOPROXY="off", GOSUMDB="off", GOTOOLCHAIN="local")
 env.pop("GOFLAGS", None)
 cmd = ["go", "test", "-json", "-vet=off", "-count=1", "-timeout", "25m"] + sys.argv[1:] + ["./..."]
-r = subprocess.run(cmd, cwd="/repo", env=env, stdout=subprocess.PIPE, stderr=subprocess.STDOUT, text=True)
+r = subprocess.run(cmd, cwd=os.environ.get("VERIF_REPO", "/repo"), env=env, stdout=subprocess.PIPE, stderr=subprocess.STDOUT, text=True)
 passed = set()
 for line in r.stdout.splitlines():
     try:
